@@ -140,6 +140,10 @@ impl Lexer {
                                 || (self.input.len() > 1 && !self.possible_search_root)) 
                             && (c == ' ' || c == ',' || is_paren_char(c) || self.is_op_char(c)) {
                             break;
+                        } else if self.possible_search_root && c == ','
+                            && input_part.chars().nth(self.char_index as usize + 1).is_none() {
+                            // a comma that ends a shell word separates two search roots
+                            break;
                         }
                     }
 
